@@ -34,6 +34,7 @@ func checkC04(r *Report, p *Program) {
 	canAdoptTable(r, p, "R04.11")
 	claimToleranceConverse(r, p, "R04.12")
 	matchIsSelectorOnly(r, p, "R04.13")
+	lastAppliedIsHookAnswer(r, p, "R04.14")
 }
 
 // listersListEverything: the controllers list their caches unfiltered and leave the
@@ -650,77 +651,19 @@ func r04_4(r *Report, p *Program) {
 		}
 	}
 	r.Check(rule, FK(se)+"[mismatch⇒error]", p.InstrPos(ci), okErr, "non-matching desired child ⇒ error return before any write", whyErr)
+	// every desired child is put to the test: no way round the Matches call back to the loop head (or on to ManageChildren)
+	wSkip := engine.Query{Fn: se, From: []engine.Point{{B: loop.Body, I: 0}}, CutInstr: func(in ssa.Instruction) bool { return in == ci },
+		Target: func(in ssa.Instruction) bool {
+			return in == mc || (in.Block() == loop.Header && in == loop.Header.Instrs[0])
+		}}.Find()
+	r.Check(rule, FK(se)+"[every-child-tested]", p.InstrPos(ci), wSkip == nil, "no iteration skips the selector test", "a desired child can go on to be created without having been tested against the parent's selector (it would be orphaned at once, or adopted by someone else); "+pathWhy(wSkip))
 	// the labels that are matched are the child's own labels (NestedStringMap of the range value) incl. injected uid
 	lblArg := chk.Arg(0)
 	okLbl := engine.DependsOnCall(lblArg, engine.HasSuffix("unstructured.NestedStringMap"), nil) != nil
 	r.Check(rule, FK(se)+"[labels-of-child]", p.InstrPos(ci), okLbl, "matched labels are read from the desired child", "matched labels are "+E(lblArg))
-	// injection precedes the test on the generated edge
-	var inj ssa.Instruction
-	for _, b := range loop.BodyBlocks() {
-		for _, in := range b.Instrs {
-			if mu, ok := in.(*ssa.MapUpdate); ok {
-				if k, isC := constStr(mu.Key); isC && k == "controller-uid" && strings.Contains(E(mu.Value), "GetUID)(") {
-					inj = in
-				}
-			}
-		}
-	}
-	okInj, whyInj := inj != nil, "no objLabels[\"controller-uid\"] = parent UID in the check loop"
-	if inj != nil {
-		// from the injection the Matches test is reached (ordering), and the injection is on the GenerateSelector edge
-		w := unguarded(se, []engine.Point{{B: loop.Body, I: 0}}, inj, func(l Lit) bool {
-			return flagLit(l, "GenerateSelector") == 1 && l.Op.String() != "=="
-		})
-		if w != nil {
-			okInj, whyInj = false, "controller-uid is injected without generateSelector being on"
-		}
-		if (engine.Query{Fn: se, From: []engine.Point{engine.After(inj)}, Target: func(in ssa.Instruction) bool { return in == ci }}).Find() == nil {
-			okInj, whyInj = false, "controller-uid is injected after the selector test"
-		}
-		// with generateSelector on and the label absent, the test is not reachable without the injection
-		w2 := engine.Query{Fn: se, From: []engine.Point{{B: loop.Body, I: 0}}, Target: func(in ssa.Instruction) bool { return in == ci },
-			CutInstr: func(in ssa.Instruction) bool { return in == inj },
-			CutEdge: func(b *ssa.BasicBlock, i int, l *Lit) bool {
-				if l == nil {
-					return false
-				}
-				if flagLit(*l, "GenerateSelector") == -1 {
-					return true
-				}
-				if l.Pos && strings.Contains(l.Atom, `["controller-uid"]`) {
-					return true // label already present
-				}
-				return false
-			}}.Find()
-		if w2 != nil {
-			okInj, whyInj = false, "with generateSelector on, a child lacking controller-uid reaches the selector test without the label being injected; "+pathWhy(w2)
-		}
-	}
-	// the label is injected into a COPY of the labels (NestedStringMap copies): it reaches the child only through SetLabels
-	if inj != nil && okInj {
-		if mu, isMU := inj.(*ssa.MapUpdate); isMU {
-			var setters []ssa.Instruction
-			for _, cs := range callsTo(se, false, "Unstructured.SetLabels") {
-				if engine.SameValue(cs.Arg(0), mu.Map) || engine.DependsOnValue(cs.Arg(0), engine.ResolveLocal(mu.Map), nil) {
-					setters = append(setters, cs.Instr.(ssa.Instruction))
-				}
-			}
-			if len(setters) == 0 {
-				okInj, whyInj = false, "the map that received controller-uid is never written back with SetLabels: the label does not reach the child, which then fails the selector check (or is created without the label and is never claimed)"
-			} else if w3 := (engine.Query{Fn: se, From: []engine.Point{engine.After(inj)}, Target: func(in ssa.Instruction) bool { return in == ci || in.Block() == loop.Header },
-				CutInstr: func(in ssa.Instruction) bool {
-					for _, st := range setters {
-						if in == st {
-							return true
-						}
-					}
-					return false
-				}}).Find(); w3 != nil {
-				okInj, whyInj = false, "after controller-uid was put into the label map a path goes on without SetLabels"
-			}
-		}
-	}
-	r.Check(rule, FK(se)+"[controller-uid-injection]", p.InstrPos(ci), okInj, "controller-uid injected on the generateSelector edge before the test", whyInj)
+	// the controller-uid label: added to every desired child where the hook answer enters the controller (callHook),
+	// so that the rollout logic, this selector test and ManageChildren all see the same child (F18)
+	generatedLabelTable(r, p, rule)
 
 	// makeSelector: empty selector refused
 	if mk := fn(r, p, rule, "controller/composite.parentController.makeSelector"); mk != nil {
@@ -940,4 +883,101 @@ func claimKeepTable(r *Report, p *Program, rule string) {
 		}
 		r.Check(rule, FK(f), p.Pos(f.Pos()), ok, "kept ⇔ (true, nil)", why)
 	}
+}
+
+// generatedLabelTable: composite callHook, per child of the hook answer that is kept: generateSelector on ∧ labels
+// readable ∧ controller-uid absent ⇒ the label (= the parent's UID) is put into the label map AND the map is written
+// back with SetLabels before the child is kept; generateSelector off ⇒ no injection.
+func generatedLabelTable(r *Report, p *Program, rule string) {
+	f := fn(r, p, rule, "controller/composite.parentController.callHook")
+	if f == nil {
+		return
+	}
+	isInj := func(in ssa.Instruction) bool {
+		mu, ok := in.(*ssa.MapUpdate)
+		if !ok {
+			return false
+		}
+		k, isC := constStr(mu.Key)
+		return isC && k == "controller-uid"
+	}
+	var loop *engine.RangeLoop
+	for _, l := range engine.RangeLoops(f) {
+		for _, b := range l.BodyBlocks() {
+			for _, in := range b.Instrs {
+				if isInj(in) {
+					loop = l
+				}
+			}
+		}
+	}
+	if loop == nil {
+		r.Check(rule, FK(f)+"[controller-uid-injection]", p.Pos(f.Pos()), false, "", "no labels[\"controller-uid\"] = … in the loop over the hook's children: with generateSelector on, desired children do not get the label the generated selector needs (or get it somewhere the rollout logic does not see)")
+		return
+	}
+	paths, err := engine.EnumPaths(f, engine.EnumOpts{Start: loop.Body, Leave: func(b *ssa.BasicBlock) bool { return b == loop.Header || b == loop.Exit },
+		Effect: func(in ssa.Instruction) bool {
+			return isInj(in) || isCallTo(in, "Unstructured.SetLabels") || isCallTo(in, "builtin.append")
+		}})
+	ok, why := err == nil, ""
+	if err != nil {
+		why = err.Error()
+	}
+	seenOn := false
+	for _, pa := range paths {
+		kept, injAt, setAfter := false, -1, false
+		for i, e := range pa.Effects {
+			switch {
+			case isInj(e):
+				injAt = i
+				mu := e.(*ssa.MapUpdate)
+				if v := E(mu.Value); !(strings.Contains(v, "GetUID)(p1)")) {
+					ok, why = false, "the controller-uid label is set to "+v+", not to the parent's UID"
+				}
+				if engine.DependsOnCall(mu.Map, engine.HasSuffix("unstructured.NestedStringMap"), nil) == nil {
+					ok, why = false, "the label map that is extended and written back was not read with NestedStringMap (GetLabels() swallows conversion errors): labels the hook sent in a wrong shape are silently replaced, and a child that must be refused is created"
+				}
+			case isCallTo(e, "Unstructured.SetLabels"):
+				if injAt >= 0 {
+					mu := pa.Effects[injAt].(*ssa.MapUpdate)
+					ci := e.(ssa.CallInstruction).Common()
+					arg := ci.Args[len(ci.Args)-1]
+					if engine.SameValue(arg, mu.Map) || engine.DependsOnValue(arg, engine.ResolveLocal(mu.Map), nil) {
+						setAfter = true
+					}
+				}
+			case isCallTo(e, "builtin.append"):
+				kept = true
+				if injAt >= 0 && !setAfter {
+					ok, why = false, "the map that received controller-uid is not written back with SetLabels before the child is kept: the label does not reach the child; path: "+pa.Cond()
+				}
+			}
+		}
+		if !kept {
+			continue
+		}
+		gen := generatedSelectorOn(pa)
+		unreadable := val(pa, -1, func(a string) bool { return strings.Contains(a, "NestedStringMap") && strings.HasSuffix(a, " == nil)") }) == -1
+		present := false
+		for _, l := range pa.Lits {
+			if l.Pos && strings.Contains(l.Atom, `["controller-uid"]`) {
+				present = true
+			}
+		}
+		switch {
+		case gen == -1 && injAt >= 0:
+			ok, why = false, "controller-uid is injected without generateSelector being on; path: "+pa.Cond()
+		case gen == 1 && !unreadable && !present:
+			seenOn = true
+			if injAt < 0 {
+				ok, why = false, "with generateSelector on, a child lacking controller-uid is kept without the label being injected; path: "+pa.Cond()
+			}
+		case gen == 0 && injAt >= 0:
+			ok, why = false, "controller-uid is injected on a path that never tested generateSelector; path: "+pa.Cond()
+		}
+	}
+	if ok && !seenOn {
+		ok, why = false, "no path on which generateSelector is on and the label is absent"
+	}
+	r.Check(rule, FK(f)+"[controller-uid-injection]", p.Pos(f.Pos()), ok, "generateSelector ∧ label absent ⇔ controller-uid := parent UID, written back, before the child is kept", why)
 }
